@@ -121,7 +121,7 @@ fn run_long(net: Net, threshold: u16, main_len: u16, fork_len: u16, fork_after: 
     // genesis difficulty is fixed at 1, so instead the first child gets a huge difficulty and the
     // anchor moves onto it once rule 1 allows (immediately), after which followers have
     // difficulty 1 and only the depth escape can move the anchor further.
-    let mut tip = 0usize;
+    let mut tip;
     let mut fork_tip: Option<usize> = None;
     let mut fork_left = fork_len;
     let mut add = |w: &mut World, parent: usize, diff: u128, out: &mut Outcome, recorded: &mut Vec<H32>, step: &mut usize| -> Option<usize> {
